@@ -15,7 +15,7 @@ import math
 import numpy as np
 from scipy.special import erfc, ndtri
 
-from vmon import contracts, world
+from vmon import contracts, own, world
 
 PROPERTY = 'C08'
 RULE = ('priors drawn from a seeded generator: bounds in either order over +-150 decades, widths '
@@ -36,12 +36,12 @@ BUDGET = {
 REQUIRED = dict(monitors=['contract:uniform.sample', 'contract:gaussian.sample', 'contract:prior.prior',
                           'uniform-inverse-cdf', 'gaussian-roundtrip-cdf', 'text-equals-direct',
                           'default-prior', 'monotone', 'lin-equivalence', 'default-prior-of-own-bounds',
-                          'text-read-again-equals-direct', 'clone:same-class-and-space', 'clone:same-map'],
+                          'text-read-again-equals-direct', 'clone:same-class-and-space', 'clone:same-map', 'caller-input-left-alone'],
                 classes=['Uniform', 'LogUniform', 'Gaussian', 'LogGaussian', 'bounds-reversed', 'u=0', 'u=1',
                          'set_bounds-on-live-object', 'text:first-object-retuned', 'modify_bounds:NPoint',
                          'modify_bounds:Isothermal', 'clone:deepcopy', 'clone:pickle', 'clone:pickle2', 'clone:copy',
                          'layout:0-d', 'layout:(n,1)', 'layout:(1,n)', 'layout:2-d-C', 'layout:2-d-F', 'layout:transposed-view',
-                         'layout:strided', 'layout:read-only', 'layout:list'])
+                         'layout:strided', 'layout:read-only', 'layout:list', 'bounds:given-as-caller-array'])
 
 
 def classify(f):
@@ -105,10 +105,15 @@ def wl_uniform(ctx, rng):
         ctx.observe('bounds-reversed')
     ctx.observe('u=0', 'u=1')
     container = [tuple, list, np.array][rng.integers(0, 3)]
+    led = own.Ledger(ctx, 'bounds')
     if not log:
         ctx.observe('Uniform')
-        p = Uniform(bounds=container((a, b)))
+        given = container((a, b))
+        p = Uniform(bounds=led.lend(given, 'bounds') if isinstance(given, np.ndarray) else given)
+        led.settle('Uniform(bounds=array)')
         x = np.array([p.sample(ui) for ui in u])
+        if isinstance(given, np.ndarray):
+            ctx.observe('bounds:given-as-caller-array')
         want = uniform_oracle(a, b, u)
         scale = max(abs(a), abs(b))
         ctx.close('uniform-inverse-cdf', x, want, 1e-12, atol=1e-12 * scale, bounds=(a, b))
@@ -131,8 +136,12 @@ def wl_uniform(ctx, rng):
         la, lb = squash(a), squash(b)
         if la == lb:
             lb = la + 1
-        p = LogUniform(bounds=container((la, lb)))
+        given = container((la, lb))
+        p = LogUniform(bounds=led.lend(given, 'bounds') if isinstance(given, np.ndarray) else given)
+        led.settle('LogUniform(bounds=array)')
         x = np.array([p.sample(ui) for ui in u])
+        if isinstance(given, np.ndarray):
+            ctx.observe('bounds:given-as-caller-array')
         want = uniform_oracle(la, lb, u)
         scale = max(abs(la), abs(lb))
         ctx.close('uniform-inverse-cdf', x, want, 1e-12, atol=1e-12 * scale, bounds=(la, lb), log=True)
@@ -158,7 +167,9 @@ def wl_uniform(ctx, rng):
             a2, b2 = squash(a2), squash(b2)
             if a2 == b2:
                 b2 = a2 + 1
-        p.set_bounds(container((a2, b2)))
+        given2 = container((a2, b2))
+        p.set_bounds(led.lend(given2, 'set_bounds argument') if isinstance(given2, np.ndarray) else given2)
+        led.settle('set_bounds(array)')
         ctx.observe('set_bounds-on-live-object')
         x2 = np.array([p.sample(ui) for ui in u])
         ctx.close('uniform-inverse-cdf', x2, uniform_oracle(a2, b2, u), 1e-12, atol=1e-12 * max(abs(a2), abs(b2)),
